@@ -1,14 +1,19 @@
 import ScVerif.C01.Drv
 import ScVerif.C04.Pull
+import ScVerif.C04.Bus
 /-!
-Driver handler for C04 (stateful): a C01 resource plus the open backpressured subscriptions.
+Driver handler for C04 (stateful): a C01 resource plus its bus (`Bus.lean`): the listeners of the
+backpressured subscriptions opened so far.  `unsub` only marks a listener dead (its context is
+cancelled); a write that announces an event runs `Bus.send` — snapshot, deliver, `collect` iff a dead
+listener was met — and `racec` registers a new listener while that `Send` is in flight.
 
 ```
 newc|newv <C01 config> [eqv=<equal|sameA>]             -> ok
 sub name=<k> [rm=<mask>] [uo]                          -> seed=[…]
 subid name=<k> id=<id> [rm=<mask>] [uo]                -> seed=[…]      (PullID; deliveries end with $ once the stream has ended)
 unsub name=<k>                                         -> ok
-upd|add|del|vset … (as C01)                            -> val=… err=… | k1=[delivered…] k2=[…]
+upd|add|del|vset … (as C01)                            -> val=… err=… | k1=[delivered…] k2=[…]   (live subscriptions)
+racea|raceb|racec w=<upd|add|del|vset> sname=<k> [srm=<mask>] [suo] … (the write's keys)
 ```
 -/
 namespace ScVerif.C04
@@ -34,7 +39,13 @@ inductive Res
 structure DrvState where
   res : Res := .none
   eqv : Eqv Msg := none
-  subs : List Sub := []
+  /-- `b.listeners`: cancelled listeners stay until a `Send` collects them -/
+  subs : List (Lsn String Sub) := []
+
+/-- the subscriptions whose context is live, in registration order -/
+def live (ls : List (Lsn String Sub)) : List Sub := (ls.filter (·.alive)).map (·.st)
+
+def mkSub (sb : Sub) : Act String Sub := .listen sb.name sb
 
 
 def parseSubOpts? (kv : KV) : Option (SubOpts Mask) := do
@@ -54,45 +65,61 @@ def deliverSubC (cfg : FCfg) (eqv : Eqv Msg) (evs : List (CEvent Msg)) (sb : Sub
       let r := pullIDLoop id got
       (s!"{sb.name}={showList (r.1.map showVDeliv)}" ++ (if r.2 then "$" else ""), { sb with ended := r.2 })
 
-/-- deliver the bus events of one collection write to every subscription -/
+/-- what the live subscriptions receive of the bus events of one collection write -/
 def deliverC (cfg : FCfg) (eqv : Eqv Msg) (subs : List Sub) (evs : List (CEvent Msg)) : String :=
   " ".intercalate (subs.map (fun sb => (deliverSubC cfg eqv evs sb).1))
 
-def deliverCSubs (cfg : FCfg) (eqv : Eqv Msg) (subs : List Sub) (evs : List (CEvent Msg)) : List Sub :=
-  subs.map (fun sb => (deliverSubC cfg eqv evs sb).2)
+/-- one subscription's share of the bus events of one value write (updates `Value.Pull`'s `last`) -/
+def deliverSubV (cfg : FCfg) (eqv : Eqv Msg) (evs : List (VEvent Msg)) (sb : Sub) : String × Sub :=
+  let r := evs.foldl (fun (acc : List (VDeliv Msg) × Option Msg) e =>
+    match valForward cfg eqv sb.opts acc.2 e with
+    | (some d, l) => (acc.1 ++ [d], l)
+    | (none, l) => (acc.1, l)) ([], sb.last)
+  (s!"{sb.name}={showList (r.1.map showVDeliv)}", { sb with last := r.2 })
 
-/-- deliver the bus events of one value write; returns the answer and the subscriptions with their
-updated `last` -/
-def deliverV (cfg : FCfg) (eqv : Eqv Msg) (subs : List Sub) (evs : List (VEvent Msg)) : String × List Sub :=
-  let stepSub (sb : Sub) : String × Sub :=
-    let r := evs.foldl (fun (acc : List (VDeliv Msg) × Option Msg) e =>
-      match valForward cfg eqv sb.opts acc.2 e with
-      | (some d, l) => (acc.1 ++ [d], l)
-      | (none, l) => (acc.1, l)) ([], sb.last)
-    (s!"{sb.name}={showList (r.1.map showVDeliv)}", { sb with last := r.2 })
-  let rs := subs.map stepSub
-  (" ".intercalate (rs.map (·.1)), rs.map (·.2))
+def deliverV (cfg : FCfg) (eqv : Eqv Msg) (subs : List Sub) (evs : List (VEvent Msg)) : String :=
+  " ".intercalate (subs.map (fun sb => (deliverSubV cfg eqv evs sb).1))
 
-/-- `racea` / `raceb`: a subscriber opens while write `w` is in flight.
+/-- the bus side of a write: no event, no `Send` (whatever else happens, happens on an idle bus); else
+one `Bus.send` with `sched` happening while it delivers -/
+def publish {ε : Type} (d : List ε → Sub → Sub) (ls : List (Lsn String Sub)) (evs : List ε)
+    (sched : List (Act String Sub)) : List (Lsn String Sub) :=
+  if evs.isEmpty then sched.foldl idle ls else send (d evs) ls sched
+
+def dC (cfg : FCfg) (eqv : Eqv Msg) (evs : List (CEvent Msg)) (sb : Sub) : Sub := (deliverSubC cfg eqv evs sb).2
+def dV (cfg : FCfg) (eqv : Eqv Msg) (evs : List (VEvent Msg)) (sb : Sub) : Sub := (deliverSubV cfg eqv evs sb).2
+
+/-- `racea` / `raceb` / `racec`: a subscriber opens while write `w` is in flight.
 `racea`: the subscriber is held between its snapshot and its bus registration while the write runs;
 a write that commits cannot proceed (the subscriber holds the read lock), so the subscribe step comes
 first (`blocked=true`); a write that does not commit, or an updates-only subscriber (takes no lock and
 registers only when released), lets the write finish first.
 `raceb`: the write is held between commit and publication (Update/Add/Set have such a point) while
-the subscriber opens: the seed has the write, its event arrives afterwards (`parked=true`). -/
+the subscriber opens: the seed has the write, its event arrives afterwards (`parked=true`).
+`racec`: the write is held inside `Bus.Send`, after the snapshot of the listeners (`parked=true` iff it
+announces an event), while the subscriber opens: the seed has the write, the new listener is not in
+the snapshot (nothing of this write is delivered to it) but must survive the `collect` at the end of
+that `Send`.  A Delete publishes under the resource lock, so a subscriber that wants a seed waits for
+it (`blocked=true`) and registers right after. -/
 def raceKeys : List String := ["w", "sname", "srm", "suo"]
 
 def raceSubOpts? (kv : KV) : Option (SubOpts Mask) := do
   let rm ← optKey kv "srm" parseMask?
   pure { readMask := rm, updatesOnly := kvHas kv "suo" }
 
-def handleRace (st : DrvState) (isA : Bool) (kv : KV) : Option (DrvState × String) := do
+inductive RaceKind | a | b | c
+  deriving DecidableEq
+
+def handleRace (st : DrvState) (rk : RaceKind) (kv : KV) : Option (DrvState × String) := do
   let w ← kvGet kv "w"
   let name ← kvGet kv "sname"
   let so ← raceSubOpts? kv
   let kvW := kv.filter (fun p => !(raceKeys.contains p.1))
   let wr ← parseWriteReq? kvW
-  let flagName := if isA then "blocked" else "parked"
+  let flag (b : Bool) (blocked : Bool) : String := match rk with
+    | .a => s!"blocked={b}"
+    | .b => s!"parked={b}"
+    | .c => s!"parked={b} blocked={blocked}"
   match st.res with
   | .coll cfg s =>
     let id ← kvGet kv "id"
@@ -103,44 +130,51 @@ def handleRace (st : DrvState) (isA : Bool) (kv : KV) : Option (DrvState × Stri
       | _ => none)
     let (o, s') := r
     let commits := !o.events.isEmpty
-    let subFirst := if isA then commits && !so.updatesOnly else false
-    let subBetween := if isA then false else commits && (w == "upd" || w == "add")
+    let subFirst := rk == .a && commits && !so.updatesOnly
+    let subBetween := rk == .b && commits && (w == "upd" || w == "add")
     let newSub : Sub := { name := name, opts := so, last := none }
     let head := s!"val={showOptMsg o.val} err={showErr o.err} | "
-    if subFirst then
-      pure ({ st with res := .coll cfg s', subs := deliverCSubs cfg st.eqv (st.subs ++ [newSub]) o.events },
-            s!"{flagName}=true seed={showList ((collSeed cfg s so).map showCEvent)} " ++ head ++
-            deliverC cfg st.eqv (st.subs ++ [newSub]) o.events)
-    else if subBetween then
-      pure ({ st with res := .coll cfg s', subs := deliverCSubs cfg st.eqv (st.subs ++ [newSub]) o.events },
-            s!"{flagName}=true seed={showList ((collSeed cfg s' so).map showCEvent)} " ++ head ++
-            deliverC cfg st.eqv (st.subs ++ [newSub]) o.events)
+    let old := deliverC cfg st.eqv (live st.subs) o.events
+    let oldS := if (live st.subs).isEmpty then "" else old ++ " "
+    if subFirst || subBetween then
+      -- the new listener is registered before the `Send` takes its snapshot
+      let ls := register st.subs name newSub
+      pure ({ st with res := .coll cfg s', subs := publish (dC cfg st.eqv) ls o.events [] },
+            flag true false ++ s!" seed={showList ((collSeed cfg (if subFirst then s else s') so).map showCEvent)} " ++ head ++
+            deliverC cfg st.eqv (live ls) o.events)
+    else if rk == .c && commits then
+      -- the new listener registers while the `Send` is in flight, after its snapshot
+      pure ({ st with res := .coll cfg s', subs := publish (dC cfg st.eqv) st.subs o.events [mkSub newSub] },
+            flag true (w == "del" && !so.updatesOnly) ++ s!" seed={showList ((collSeed cfg s' so).map showCEvent)} " ++ head ++
+            oldS ++ s!"{name}=[]")
     else
-      let old := deliverC cfg st.eqv st.subs o.events
-      pure ({ st with res := .coll cfg s', subs := deliverCSubs cfg st.eqv st.subs o.events ++ [newSub] },
-            s!"{flagName}=false seed={showList ((collSeed cfg s' so).map showCEvent)} " ++ head ++
-            (if st.subs.isEmpty then "" else old ++ " ") ++ s!"{name}=[]")
+      pure ({ st with res := .coll cfg s', subs := register (publish (dC cfg st.eqv) st.subs o.events []) name newSub },
+            flag false false ++ s!" seed={showList ((collSeed cfg s' so).map showCEvent)} " ++ head ++
+            oldS ++ s!"{name}=[]")
   | .val cfg s =>
     if w != "vset" then none
     let m ← (kvGet kv "msg").bind parseMsg?
     let (o, s') := Value.set cfg s m wr
     let commits := !o.events.isEmpty
-    let subFirst := if isA then commits && !so.updatesOnly else false
-    let subBetween := if isA then false else commits
+    let subFirst := rk == .a && commits && !so.updatesOnly
+    let subBetween := rk == .b && commits
     let head := s!"val={showOptMsg o.val} err={showErr o.err} | "
+    let old := deliverV cfg st.eqv (live st.subs) o.events
+    let oldS := if (live st.subs).isEmpty then "" else old ++ " "
     if subFirst || subBetween then
       let sd := valSeed cfg (if subFirst then s else s') so
       let newSub : Sub := { name := name, opts := so, last := sd.2 }
-      let (ans, subs') := deliverV cfg st.eqv (st.subs ++ [newSub]) o.events
-      pure ({ st with res := .val cfg s', subs := subs' },
-            s!"{flagName}=true seed={showList (sd.1.map showVDeliv)} " ++ head ++ ans)
+      let ls := register st.subs name newSub
+      pure ({ st with res := .val cfg s', subs := publish (dV cfg st.eqv) ls o.events [] },
+            flag true false ++ s!" seed={showList (sd.1.map showVDeliv)} " ++ head ++ deliverV cfg st.eqv (live ls) o.events)
     else
-      let (old, subs') := deliverV cfg st.eqv st.subs o.events
       let sd := valSeed cfg s' so
       let newSub : Sub := { name := name, opts := so, last := sd.2 }
-      pure ({ st with res := .val cfg s', subs := subs' ++ [newSub] },
-            s!"{flagName}=false seed={showList (sd.1.map showVDeliv)} " ++ head ++
-            (if st.subs.isEmpty then "" else old ++ " ") ++ s!"{name}=[]")
+      let subs' := if rk == .c && commits then publish (dV cfg st.eqv) st.subs o.events [mkSub newSub]
+        else register (publish (dV cfg st.eqv) st.subs o.events []) name newSub
+      pure ({ st with res := .val cfg s', subs := subs' },
+            flag (rk == .c && commits) false ++ s!" seed={showList (sd.1.map showVDeliv)} " ++ head ++
+            oldS ++ s!"{name}=[]")
   | .none => none
 
 def handleOpt (st : DrvState) (toks : List String) : Option (DrvState × String) :=
@@ -149,8 +183,9 @@ def handleOpt (st : DrvState) (toks : List String) : Option (DrvState × String)
   | op :: rest => do
     let kv ← parseKV rest
     match op, st.res with
-    | "racea", _ => handleRace st true kv
-    | "raceb", _ => handleRace st false kv
+    | "racea", _ => handleRace st .a kv
+    | "raceb", _ => handleRace st .b kv
+    | "racec", _ => handleRace st .c kv
     | "newc", _ =>
       let cfg ← parseCfg? kv
       let rng ← parseRng? ((kvGet kv "rng").getD "")
@@ -165,51 +200,51 @@ def handleOpt (st : DrvState) (toks : List String) : Option (DrvState × String)
     | "sub", .coll cfg s =>
       let name ← kvGet kv "name"
       let o ← parseSubOpts? kv
-      pure ({ st with subs := st.subs ++ [{ name := name, opts := o, last := none }] },
+      pure ({ st with subs := register st.subs name { name := name, opts := o, last := none } },
             "seed=" ++ showList ((collSeed cfg s o).map showCEvent))
     | "subid", .coll cfg s =>
       let name ← kvGet kv "name"
       let id ← kvGet kv "id"
       let o ← parseSubOpts? kv
       let r := pullIDLoop (icptId cfg id) (collSeed cfg s o)
-      pure ({ st with subs := st.subs ++ [{ name := name, opts := o, last := none, pid := some (icptId cfg id), ended := r.2 }] },
+      pure ({ st with subs := register st.subs name { name := name, opts := o, last := none, pid := some (icptId cfg id), ended := r.2 } },
             "seed=" ++ showList (r.1.map showVDeliv))
     | "sub", .val cfg s =>
       let name ← kvGet kv "name"
       let o ← parseSubOpts? kv
       let sd := valSeed cfg s o
-      pure ({ st with subs := st.subs ++ [{ name := name, opts := o, last := sd.2 }] },
+      pure ({ st with subs := register st.subs name { name := name, opts := o, last := sd.2 } },
             "seed=" ++ showList (sd.1.map showVDeliv))
     | "unsub", _ =>
+      -- the context is cancelled; the listener stays registered until a `Send` collects it
       let name ← kvGet kv "name"
-      pure ({ st with subs := st.subs.filter (·.name ≠ name) }, "ok")
+      pure ({ st with subs := markDead name st.subs }, "ok")
     | "upd", .coll cfg s =>
       let id ← kvGet kv "id"
       let msg ← (kvGet kv "msg").bind parseMsg?
       let wr ← parseWriteReq? kv
       let (o, s') := Coll.update cfg s id msg wr
-      pure ({ st with res := .coll cfg s', subs := deliverCSubs cfg st.eqv st.subs o.events },
-            s!"val={showOptMsg o.val} err={showErr o.err} | " ++ deliverC cfg st.eqv st.subs o.events)
+      pure ({ st with res := .coll cfg s', subs := publish (dC cfg st.eqv) st.subs o.events [] },
+            s!"val={showOptMsg o.val} err={showErr o.err} | " ++ deliverC cfg st.eqv (live st.subs) o.events)
     | "add", .coll cfg s =>
       let id ← kvGet kv "id"
       let msg ← (kvGet kv "msg").bind parseMsg?
       let wr ← parseWriteReq? kv
       let (o, s') := Coll.add cfg s id msg wr
-      pure ({ st with res := .coll cfg s', subs := deliverCSubs cfg st.eqv st.subs o.events },
-            s!"val={showOptMsg o.val} err={showErr o.err} | " ++ deliverC cfg st.eqv st.subs o.events)
+      pure ({ st with res := .coll cfg s', subs := publish (dC cfg st.eqv) st.subs o.events [] },
+            s!"val={showOptMsg o.val} err={showErr o.err} | " ++ deliverC cfg st.eqv (live st.subs) o.events)
     | "del", .coll cfg s =>
       let id ← kvGet kv "id"
       let wr ← parseWriteReq? kv
       let (o, s') := Coll.delete cfg s id wr
-      pure ({ st with res := .coll cfg s', subs := deliverCSubs cfg st.eqv st.subs o.events },
-            s!"val={showOptMsg o.val} err={showErr o.err} | " ++ deliverC cfg st.eqv st.subs o.events)
+      pure ({ st with res := .coll cfg s', subs := publish (dC cfg st.eqv) st.subs o.events [] },
+            s!"val={showOptMsg o.val} err={showErr o.err} | " ++ deliverC cfg st.eqv (live st.subs) o.events)
     | "vset", .val cfg s =>
       let msg ← (kvGet kv "msg").bind parseMsg?
       let wr ← parseWriteReq? kv
       let (o, s') := Value.set cfg s msg wr
-      let (ans, subs') := deliverV cfg st.eqv st.subs o.events
-      pure ({ st with res := .val cfg s', subs := subs' },
-            s!"val={showOptMsg o.val} err={showErr o.err} | " ++ ans)
+      pure ({ st with res := .val cfg s', subs := publish (dV cfg st.eqv) st.subs o.events [] },
+            s!"val={showOptMsg o.val} err={showErr o.err} | " ++ deliverV cfg st.eqv (live st.subs) o.events)
     | _, _ => none
 
 def handleS (st : DrvState) (toks : List String) : DrvState × String :=
